@@ -56,6 +56,8 @@ if prev and prev.get("check") and (prev["check"].get("caught") != out["check"]["
     hist = hist + [{"caught": prev["check"].get("caught"), "with_failing_input": prev["check"].get("with_failing_input"), "violation_line": prev["check"].get("violation_line")}]
 if hist:
     out["earlier_runs"] = hist
+if (prev or {}).get("patch_rebased") or m.get("patch_rebased"):
+    out["patch_rebased"] = (prev or {}).get("patch_rebased") or m.get("patch_rebased")
 json.dump(out, open(dst, "w"), indent=1)
 print(json.dumps(out["confirmed"]), json.dumps(out["check"])[:600])
 PYEOF
